@@ -90,11 +90,18 @@ def version_arms(b, on_self_field=None):
     raise AnchorMissing(f"no match on FileVersion in {b.path}")
 
 
+def specialise(b, enum_suffix, variant):
+    """the body with every `match <value of enum>` resolved to one variant (see common.specialise_switch)"""
+    return specialise_switch(b, lambda e, enum: bool(enum) and enum.endswith(enum_suffix) and e.k == "discr", variant)
+
+
 def trailer_write(F):
-    b = F.body(A("meta_write"))
-    bb, arms = version_arms(b)
+    b0 = F.body(A("meta_write"))
+    bb, arms = version_arms(b0)
     out = {}
-    for ver, reg in arms.items():
+    for ver in arms:
+        b = specialise(b0, "FileVersion", ver)
+        reg = b.normal_blocks()
         seq = []
         for s, kind, w, en in io_calls(b, reg):
             if kind != "write":
